@@ -271,6 +271,9 @@ func TestC08_CloseAndPingStateMachine(t *testing.T) {
 		excluded := 0
 		buf := make([]byte, max+16)
 
+		// an AsyncClose whose transport write has not been delivered yet (the Close frame is "in flight")
+		var pendingCloseDone *int
+		var pendingCloseErr *error
 		deliverUntil := func(done *int, what string) {
 			for d := 0; *done == 0; d++ {
 				if !ms.Deliver() {
@@ -282,6 +285,17 @@ func TestC08_CloseAndPingStateMachine(t *testing.T) {
 			}
 			if *done != 1 {
 				t.Fatalf("%s: callback invoked %d times; trace=%v", what, *done, trace)
+			}
+		}
+		settleClose := func() {
+			if pendingCloseDone != nil {
+				d, e := pendingCloseDone, pendingCloseErr
+				pendingCloseDone, pendingCloseErr = nil, nil
+				deliverUntil(d, "AsyncClose (delivered later)")
+				if *e != nil {
+					t.Fatalf("AsyncClose completed with %v; trace=%v", *e, trace)
+				}
+				trace = append(trace, "close-delivered")
 			}
 		}
 		noteEvent := func() {
@@ -394,6 +408,9 @@ func TestC08_CloseAndPingStateMachine(t *testing.T) {
 						return
 					}
 				}
+			}
+			if api == "NextFrame" || api == "NextMessage" {
+				settleClose() // the blocking APIs are not mixed with an asynchronous flush in flight
 			}
 			ctlGot = nil
 			var exp readResult
@@ -527,6 +544,7 @@ func TestC08_CloseAndPingStateMachine(t *testing.T) {
 			if stopped {
 				return
 			}
+			settleClose()
 			var ferr error
 			if rapid.Bool().Draw(t, "asyncFlush") {
 				done := 0
@@ -547,18 +565,27 @@ func TestC08_CloseAndPingStateMachine(t *testing.T) {
 			if stopped {
 				return
 			}
+			settleClose()
 			code := rapid.SampledFrom([]websocket.CloseCode{websocket.CloseNormal, websocket.CloseGoingAway, 3001}).Draw(t, "ccode")
 			reason := rapid.SampledFrom([]string{"", "done"}).Draw(t, "creason")
 			var cerr error
 			async := rapid.Bool().Draw(t, "asyncClose")
+			inFlight := false
 			if async {
 				done := 0
 				s.AsyncClose(code, reason, func(err error) { done++; cerr = err })
-				deliverUntil(&done, "AsyncClose")
+				if done == 0 && pendingCloseDone == nil && ms.Parked() > 0 && rapid.Bool().Draw(t, "leaveInFlight") {
+					// the Close frame is still being written: the closing handshake has started all the same, so
+					// application writes are refused and State() says so from now on; the write is delivered later
+					inFlight = true
+					pendingCloseDone, pendingCloseErr = &done, &cerr
+				} else {
+					deliverUntil(&done, "AsyncClose")
+				}
 			} else {
 				cerr = s.Close(code, reason)
 			}
-			trace = append(trace, fmt.Sprintf("close(async=%v,%d)=%v", async, code, cerr))
+			trace = append(trace, fmt.Sprintf("close(async=%v,inflight=%v,%d)=%v", async, inFlight, code, cerr))
 			if m.state == epOpen {
 				if cerr != nil {
 					t.Fatalf("Close while open failed: %v; trace=%v", cerr, trace)
@@ -608,6 +635,7 @@ func TestC08_CloseAndPingStateMachine(t *testing.T) {
 			},
 		})
 		if !stopped {
+			settleClose()
 			if err := s.Flush(); err != nil {
 				t.Fatalf("final flush: %v; trace=%v", err, trace)
 			}
